@@ -3292,9 +3292,14 @@ class StateEngine(object):
                 return
 
             """
-            Publish any new state change before acknowledging the events.
+            Publish any new state change, or end the execution, before
+            acknowledging the events. Ending the execution deletes the Parallel
+            or Map branch results for the current execution, but event_ids
+            still refers to the list of held events.
             """
-            if not state.get("End"):
+            if state.get("End"):
+                handle_terminal_state(state_type, event)
+            else:
                 error_type, error_message = self.change_state(
                     state_machine, state_type, state.get("Next"), event
                 )
@@ -3305,13 +3310,6 @@ class StateEngine(object):
             #print("Result - event_ids:")
             #print(event_ids)
             self.acknowledge_event_list(event_ids)
-
-            """
-            Need to do this *after* acknowledging the events as it deletes the
-            Parallel or Map branch results for the current execution.
-            """
-            if state.get("End"):
-                handle_terminal_state(state_type, event)
 
 
         """
